@@ -36,7 +36,8 @@ def scenarios(draw):
     p = SS.eval_pre_dispatch(spec["pre_dispatch"], spec["n_jobs"])
     b = SS.max_batch(spec)
     bound = ((p or 6) + 2 * spec["n_jobs"]) * b
-    n = draw(st.one_of(st.integers(0, 10), st.integers(bound + 1, min(3 * bound + 3, 400)), SS.n_tasks(spec)))
+    big = st.integers(bound + 1, min(3 * bound + 3, 400)) if bound + 1 <= 400 else st.integers(100, 400)
+    n = draw(st.one_of(st.integers(0, 10), big, SS.n_tasks(spec)))
     call = {"n": n, "sync": draw(st.lists(st.integers(0, 12), max_size=5, unique=True)),
             "gates": draw(SS.gates(kinds=("iter", "iter", "batchsize", "submit", "retrieve", "batchdone"), max_at=20)),
             "fail": {}, "iter_fail": None, "never": []}
